@@ -1,0 +1,15 @@
+//go:build verif
+
+package partitions
+
+import "github.com/0chain/common/core/util"
+
+// VerifCodecTypes returns constructors of the unexported stored types of this package
+// (verification harness only; property C08).
+func VerifCodecTypes() []func() util.MPTSerializable {
+	return []func() util.MPTSerializable{
+		func() util.MPTSerializable { return &partition{} },
+		func() util.MPTSerializable { return &location{} },
+		func() util.MPTSerializable { return &item{} },
+	}
+}
